@@ -4,8 +4,11 @@ import GmQuic.Lemmas.AntiAmpFold
 /-!
 # C15 — an unvalidated address never receives more than 3x what it sent
 
-`Path.step` is the tree with `repo_patches/fix-C15-burst-credit.diff` applied, `Path.stepFound` the tree as
-found (`Rule.asFound`).  Histories are lists of `AaOp` (packet arrivals of any size, bursts of any
+`Path.step` is the tree as found (`Rule.asFound`); `Path.stepRepaired` is a repaired burst rule
+(`Rule.fixed`: padding capped by the credit, credit carried across the segments of a burst, guarded
+CONNECTION_CLOSE) — the design target for which the full bound is proved; the literal patch
+(`repo_patches/experimental-C15-burst-credit.diff`) stalls the repo's handshake tests and is NOT a fix.
+Histories are lists of `AaOp` (packet arrivals of any size, bursts of any
 number of segments with any packet sizes / quota / MTU / forward header, CONNECTION_CLOSE sends,
 grant, abort, polls).  The interleaving theorems (atomic-operation granularity) are in the second
 half (`Conc`).
@@ -15,26 +18,26 @@ open GmQuic.AntiAmp
 
 /-- **three_x** (DESIGN Appendix A shape): before the address is validated the bytes handed to the
     IO sender never exceed three times the bytes received, and the credit never wrapped — for every
-    history.  Holds of the fixed tree. -/
-theorem three_x (ops : List AaOp) (hng : NotGranted ops) :
-    let s := ops.foldl Path.step Path.init
+    history.  Holds of the repaired rule; FALSE of the tree as found (`three_x_fails`). -/
+theorem three_x_repaired (ops : List AaOp) (hng : NotGranted ops) :
+    let s := ops.foldl Path.stepRepaired Path.init
     s.underflow = false ∧ s.sentTotal ≤ 3 * s.rcvdTotal := by
   have h := pinv_fold Rule.fixed ops Path.init ⟨rfl, by decide, by decide⟩ hng
     (fun op _ => opOk_fixed op)
-  exact ⟨h.uf, by have := h.le; unfold Path.step; omega⟩
+  exact ⟨h.uf, by have := h.le; unfold Path.stepRepaired; omega⟩
 
 /-- non-vacuity: a history with a tiny packet, an Initial-bearing burst, a six-segment burst and a close. -/
 example :
     let ops : List AaOp := [.rcvd 40, .burst [⟨1200, 0, 12000, (90, true), [], 0⟩], .rcvd 1200,
       .burst (List.replicate 6 ⟨1200, 0, 12000, (0, true), [(1200, true)], 0⟩), .close 60, .poll]
-    NotGranted ops ∧ (ops.foldl Path.step Path.init).sentTotal = 3720 ∧
-      (ops.foldl Path.step Path.init).rcvdTotal = 1240 := by decide
+    NotGranted ops ∧ (ops.foldl Path.stepRepaired Path.init).sentTotal = 3720 ∧
+      (ops.foldl Path.stepRepaired Path.init).rcvdTotal = 1240 := by decide
 
 /-- The tree as found violates the bound: 40 bytes received (credit 120), one Initial-bearing datagram
     padded to the full 1200-byte buffer; `on_sent(1200)` then wraps the credit. -/
 theorem three_x_fails :
     ¬ ∀ (ops : List AaOp), NotGranted ops →
-      let s := ops.foldl Path.stepFound Path.init
+      let s := ops.foldl Path.step Path.init
       s.underflow = false ∧ s.sentTotal ≤ 3 * s.rcvdTotal := by
   intro h
   have := h [.rcvd 40, .burst [⟨1200, 0, 12000, (90, true), [], 0⟩]] (by decide)
@@ -44,7 +47,7 @@ theorem three_x_fails :
     same `balance()`; 1200 bytes received (credit 3600), six full datagrams leave in one burst. -/
 theorem three_x_fails_multi_segment :
     ¬ ∀ (ops : List AaOp), NotGranted ops →
-      let s := ops.foldl Path.stepFound Path.init
+      let s := ops.foldl Path.step Path.init
       s.underflow = false ∧ s.sentTotal ≤ 3 * s.rcvdTotal := by
   intro h
   have := h [.rcvd 1200, .burst (List.replicate 6 ⟨1200, 0, 12000, (0, true), [(1200, true)], 0⟩)] (by decide)
@@ -52,7 +55,7 @@ theorem three_x_fails_multi_segment :
 
 /-- After the wrap the allowance is effectively unlimited (the property's last sentence). -/
 theorem wrap_is_unlimited_found :
-    let s := [AaOp.rcvd 40, .burst [⟨1200, 0, 12000, (90, true), [], 0⟩]].foldl Path.stepFound Path.init
+    let s := [AaOp.rcvd 40, .burst [⟨1200, 0, 12000, (90, true), [], 0⟩]].foldl Path.step Path.init
     s.aa.balance.2 = .some (U - 1080) := by decide
 
 /-- **three_x_partial**: the tree as found keeps the bound on histories whose bursts have a single
@@ -60,26 +63,26 @@ theorem wrap_is_unlimited_found :
     unconstrained closing path (exactly the three causes of `three_x_fails`). -/
 theorem three_x_partial (ops : List AaOp) (hng : NotGranted ops)
     (hok : ∀ op ∈ ops, OpOk Rule.asFound op) :
-    let s := ops.foldl Path.stepFound Path.init
+    let s := ops.foldl Path.step Path.init
     s.underflow = false ∧ s.sentTotal ≤ 3 * s.rcvdTotal := by
   have h := pinv_fold Rule.asFound ops Path.init ⟨rfl, by decide, by decide⟩ hng hok
-  exact ⟨h.uf, by have := h.le; unfold Path.stepFound; omega⟩
+  exact ⟨h.uf, by have := h.le; unfold Path.step; omega⟩
 
 example :
     let ops : List AaOp := [.rcvd 1200, .burst [⟨1200, 0, 12000, (0, true), [(1200, true)], 0⟩], .poll]
     NotGranted ops ∧ (∀ op ∈ ops, OpOk Rule.asFound op) ∧
-      (ops.foldl Path.stepFound Path.init).sentTotal = 1200 := by
+      (ops.foldl Path.step Path.init).sentTotal = 1200 := by
   refine ⟨by decide, ?_, by decide⟩
   intro op hop
   simp at hop
   rcases hop with rfl | rfl | rfl <;> simp [OpOk, BurstOk, SegOk, Rule.asFound]
 
 
-/-- **no_underflow**: in the fixed tree the credit arithmetic never wraps, on any history at all
+/-- **no_underflow**: under the repaired rule the credit arithmetic never wraps, on any history at all
     (grants, aborts and closes included). -/
-theorem no_underflow (ops : List AaOp) :
-    (ops.foldl Path.step Path.init).underflow = false := by
-  suffices h : ∀ s : PathSt, s.aa.underflow = false → (ops.foldl Path.step s).aa.underflow = false from
+theorem no_underflow_repaired (ops : List AaOp) :
+    (ops.foldl Path.stepRepaired Path.init).underflow = false := by
+  suffices h : ∀ s : PathSt, s.aa.underflow = false → (ops.foldl Path.stepRepaired s).aa.underflow = false from
     h Path.init rfl
   induction ops with
   | nil => intro s h; exact h
@@ -115,8 +118,8 @@ theorem abort_takes_effect (s : PathSt) (h : s.aa.state = .normal) :
 
 /-- **abort_stops** (2): after an abort nothing is ever sent on the path again and `balance()` is
     `Ok(None)` (the burst task ends) — for every continuation, a later `grant` included. -/
-theorem abort_stops (ops : List AaOp) (s : PathSt) (h : s.aa.state = .aborted) :
-    let s' := ops.foldl Path.step s
+theorem abort_stops_repaired (ops : List AaOp) (s : PathSt) (h : s.aa.state = .aborted) :
+    let s' := ops.foldl Path.stepRepaired s
     s'.sentTotal = s.sentTotal ∧ s'.aa.balance.2 = .deactivated := by
   induction ops generalizing s with
   | nil => simp [balance_snd, h]
